@@ -98,6 +98,12 @@ type TypeSpec struct {
 
 type World struct {
 	Types []TypeSpec `json:"types"`
+	// Share: "" = every name gets its own definition values (as an application that writes its schema as one
+	// literal does). Otherwise the key of a process-wide pool (sharing.go): relationships / attributes with the same
+	// specification share ONE *RelationshipDefinition / *AttributeDefinition — under two names of one type, in two
+	// types, and in every schema built later in the process with the same key — and equal attribute / relationship
+	// sets share one map.
+	Share string `json:"share,omitempty"`
 }
 
 func (w *World) typ(name string) *TypeSpec {
@@ -191,16 +197,30 @@ func (w *World) build() (*jsonapi.Schema, error) {
 	for _, ts := range w.Types {
 		ts := ts
 		rt := jsonapi.ResourceType[*res]{}
+		pool := poolFor(w.Share)
 		if len(ts.Attrs) > 0 {
-			rt.Attributes = map[string]*jsonapi.AttributeDefinition[*res]{}
-			for _, a := range ts.Attrs {
-				rt.Attributes[a.Name] = &jsonapi.AttributeDefinition[*res]{Resolver: attrResolver{a}}
-			}
+			rt.Attributes = pool.attrMap(ts.Attrs, func() map[string]*jsonapi.AttributeDefinition[*res] {
+				m := map[string]*jsonapi.AttributeDefinition[*res]{}
+				for _, a := range ts.Attrs {
+					a := a
+					m[a.Name] = pool.attrDef(a, func() *jsonapi.AttributeDefinition[*res] {
+						return &jsonapi.AttributeDefinition[*res]{Resolver: attrResolver{a}}
+					})
+				}
+				return m
+			})
 		}
-		if len(ts.Rels) > 0 {
+		if m := pool.relMapCached(ts.Rels); m != nil {
+			rt.Relationships = m
+		} else if len(ts.Rels) > 0 {
 			rt.Relationships = map[string]*jsonapi.RelationshipDefinition[*res]{}
+			pool.storeRelMap(ts.Rels, rt.Relationships)
 			for _, rs := range ts.Rels {
 				rs := rs
+				if d := pool.relDefCached(rs); d != nil {
+					rt.Relationships[rs.Name] = d
+					continue
+				}
 				wrap := func(inner jsonapi.RelationshipResolver[*res]) jsonapi.RelationshipResolver[*res] {
 					if rs.Custom {
 						return newSharedLinksResolver(inner, rs.Name)
@@ -220,6 +240,7 @@ func (w *World) build() (*jsonapi.Schema, error) {
 							return &types.ResourceId{Type: rs.Resolve.Ids[0].Type, Id: rs.Resolve.Ids[0].Id}, nil
 						},
 					})}
+					pool.storeRelDef(rs, rt.Relationships[rs.Name])
 					continue
 				}
 				many := jsonapi.ToManyRelationshipResolver[*res]{ResolveByDefault: rs.ByDefault}
@@ -232,6 +253,7 @@ func (w *World) build() (*jsonapi.Schema, error) {
 					many.RemoveMembers = manyFunc(*rs.Remove)
 				}
 				rt.Relationships[rs.Name] = &jsonapi.RelationshipDefinition[*res]{Resolver: wrap(many)}
+				pool.storeRelDef(rs, rt.Relationships[rs.Name])
 			}
 		}
 		if ts.Get.Defined {
